@@ -164,6 +164,53 @@ move=> exp_pos cp q ps s0; rewrite gen_active_rank1_scalar_eq /active_rank1_scal
 by split; [exact: convex01 | rewrite mulr_gt0].
 Qed.
 
+(* ---- the success frequency of StrategyActiveOnePlusLambda.update ---- *)
+Lemma gen_active_p_succ_eq (pfit : option (fitness (T:=R))) pop :
+  gen_active_p_succ RO pfit pop = active_p_succ RO pfit pop.
+Proof.
+rewrite /gen_active_p_succ /active_p_succ; cbv zeta.
+first [ reflexivity
+      | set v := List.filter _ pop;
+        have := size_sort_desc' (fun a b : aind (T:=R) => c_lt RO (ai_fit a) (ai_fit b)) v;
+        case: v => [|x l]; first by [];
+        rewrite [Nat.ltb _ _]/= ?[Nat.leb _ _]/=;
+        case: (sort_desc _ (x :: l)) => [|b r] // _;
+        case: pfit => [pf|]; rewrite ?[negb _]/=; congr (Some _); rnorm; req ].
+Qed.
+
+(* the hand-written slice is what the model's update passes to rank1update *)
+Lemma active_p_succ_spec (P : aparams (T:=R)) st pop :
+  active_update_rank1 RO P st pop =
+  match active_p_succ RO (as_pfit st) pop,
+        sort_desc (fun a b => c_lt RO (ai_fit a) (ai_fit b)) (List.filter (fun i => f_valid (ai_fit i)) pop) with
+  | Some p, best :: _ => rank1update RO P st best p
+  | _, _ => st
+  end.
+Proof.
+rewrite /active_update_rank1 /active_p_succ /has_fitness /parent_le; cbv zeta.
+case: (sort_desc _ _) => [|best rest] //.
+by case: (as_pfit st).
+Qed.
+
+Lemma gen_active_p_succ_spec (P : aparams (T:=R)) st pop :
+  active_update_rank1 RO P st pop =
+  match gen_active_p_succ RO (as_pfit st) pop,
+        sort_desc (fun a b => c_lt RO (ai_fit a) (ai_fit b)) (List.filter (fun i => f_valid (ai_fit i)) pop) with
+  | Some p, best :: _ => rank1update RO P st best p
+  | _, _ => st
+  end.
+Proof. by rewrite gen_active_p_succ_eq; exact: active_p_succ_spec. Qed.
+
+(* the regenerated success frequency is a frequency *)
+Lemma gen_active_p_succ_range (pfit : option (fitness (T:=R))) pop p :
+  gen_active_p_succ RO pfit pop = Some p -> 0 <= p <= 1.
+Proof.
+rewrite gen_active_p_succ_eq /active_p_succ; cbv zeta.
+case: (sort_desc _ _) => [|best rest] //; rewrite !ofnatE => -[<-].
+apply: frac01 => //.
+by case: pfit => [pf|] //; rewrite count_ifE; exact: (count_size _ (best :: rest)).
+Qed.
+
 (* ---- C14 theorems restated on the regenerated definitions ---- *)
 Lemma gen_plain_defaults_ok dim lam : (0 < lam)%nat ->
   let P := gen_plain_computeParams RO dim lam in
